@@ -232,11 +232,18 @@ def r14_3(ctx):
     m = ctx.model
     fr = m.func('heap:Heap._free')
     probes = {}
+    soft = set()        # probes made with dict.get(): a missing neighbour is None, not KeyError
     for n in walk_own(fr.node):
         if isinstance(n, ast.Assign) and isinstance(n.value, ast.Subscript):
             idx, key = _key(n.value)
             if idx in ('_start_to_block', '_stop_to_block'):
                 probes[idx] = (n, key, ast.unparse(n.targets[0]))
+        elif isinstance(n, ast.Assign) and isinstance(n.value, ast.Call) and isinstance(n.value.func, ast.Attribute) \
+                and n.value.func.attr == 'get' and len(n.value.args) == 1 and \
+                ast.unparse(n.value.func.value) in ('self._start_to_block', 'self._stop_to_block'):
+            idx = n.value.func.value.attr
+            probes[idx] = (n, ast.unparse(n.value.args[0]).replace(' ', ''), ast.unparse(n.targets[0]))
+            soft.add(idx)
     ok = probes.get('_stop_to_block', (None, None))[1] == '(arena,start)'
     ctx.ob('R14.3', '_free:left-neighbour-ends-at-start', ok, fr, probes.get('_stop_to_block', (None,))[0],
            'prev = self._stop_to_block[(arena, start)]')
@@ -259,7 +266,27 @@ def r14_3(ctx):
     ctx.ob('R14.3', '_absorb:returns-its-extent', ok, ab, rets[0] if rets else None, 'return start, stop')
     for idx, (n, key, var) in probes.items():
         h = q.protected_by(fr, n.value, ['KeyError'])
-        ctx.ob('R14.3', '_free:no-neighbour-is-not-an-error@%s' % idx, h is not None, fr, n, 'probe inside try/except KeyError')
+        if idx in soft:
+            # .get(): the absorb must be under `<probe> is not None`
+            ab_nodes = [x for (x, c_) in q.calls(fr, 'self._absorb') if c_.args and ast.unparse(c_.args[0]) == var]
+            okg = bool(ab_nodes) and all(q.has_guard(fr, x, var + ' is None', False) or q.has_guard(fr, x, var, True)
+                                         for x in ab_nodes)
+            ctx.ob('R14.3', '_free:no-neighbour-is-not-an-error@%s' % idx, okg, fr, n,
+                   'probe with .get(), absorbed only when it found a block')
+        else:
+            ctx.ob('R14.3', '_free:no-neighbour-is-not-an-error@%s' % idx, h is not None, fr, n,
+                   'probe inside try/except KeyError')
+        # a neighbour that was found is absorbed whatever the other probe found: the only condition on the absorb is
+        # its own probe's answer
+        for (x, c_) in q.calls(fr, 'self._absorb'):
+            if not (c_.args and ast.unparse(c_.args[0]) == var):
+                continue
+            others = sorted(t for (t, p_) in q.guards_norm(fr, x)
+                            if t.replace(' ', '') not in (var + 'isNone', var))
+            ctx.ob('R14.3', '_free:found-neighbour-is-absorbed@%s' % idx, not others, fr, c_,
+                   'absorbing `%s` depends only on its own probe' % var if not others else
+                   'absorbing `%s` also depends on `%s`: a freed block with free blocks on both sides merges with one '
+                   'of them only, and the other stays a separate fragment next to it' % (var, others[0]))
         # both neighbours are looked up for every freed block: a "cannot have a neighbour" shortcut must be about the
         # block's own arena (start == 0 / stop == arena.size), nothing else -- arenas differ in size
         cn = fr.cfg.node_containing(n.value)
@@ -409,7 +436,7 @@ def run(ctx):
     from .c15 import r15_5
     r15_5(ctx)
     from .generic import handlers_match_lookups
-    handlers_match_lookups(ctx, 'R14.8', ['heap'], floor=3)
+    handlers_match_lookups(ctx, 'R14.8', ['heap'], floor=1)
     r14_1(ctx)
     r14_2(ctx)
     r14_3(ctx)
